@@ -18,6 +18,15 @@ CoeDevs ==
        fmmuEx |-> <<>>] :
       two \in BOOLEAN, packed \in BOOLEAN, perSm \in BOOLEAN, a \in Lens, b \in Lens, c \in Lens }
 
+\* more input sync managers than input FMMUs: the third extends the second FMMU (areas back to back)
+CoeDevs3 ==
+    { [coe |-> TRUE,
+       outs |-> <<Sm(2, 4352, a)>>,
+       ins |-> <<Sm(3, 4480, c), Sm(4, 4480 + c, a), Sm(5, 4480 + c + a, b)>>,
+       usage |-> <<1, 2, 2, 3>>,
+       fmmuEx |-> <<>>] :
+      a \in Lens, b \in Lens, c \in Lens }
+
 DioDevs ==
     { [coe |-> FALSE,
        outs |-> IF two THEN <<Sm(0, 4352, a), Sm(1, 4480, b)>> ELSE <<Sm(2, 4352, a)>>,
@@ -28,7 +37,7 @@ DioDevs ==
 
 McInit ==
     \E n \in 1..MaxDevs, g \in 1..MaxGroups, m \in Caps :
-        \E D \in [1..n -> CoeDevs \cup DioDevs] :
+        \E D \in [1..n -> CoeDevs \cup CoeDevs3 \cup DioDevs] :
             PlInitWith(D, g, m, [k \in 1..g |-> (k - 1) * m])
 
 McSpec == McInit /\ [][PlNext]_plvars
